@@ -34,6 +34,16 @@ def c09(tier):
         if (expect is None and not r.ok) or (expect is not None and r.violation != expect):
             raise vlib.Inconclusive("ConnDeadline %s: expected %s, TLC says %s\n%s" % (cfg, expect or "no violation", r.violation, r.out[-1500:]))
         runs.append({"cfg": cfg, "expected_violation": expect, **r.summary()})
+    if not q:
+        # unbounded: "no write fails on a stale deadline" is an inductive invariant for every horizon, idle time and deadline (Apalache)
+        steps = [("base", ["--cinit=ConstInit", "--init=Init", "--inv=IndInv", "--length=0"], True),
+                 ("step", ["--cinit=ConstInit", "--init=IndInit", "--inv=IndInv", "--length=1"], True),
+                 ("step-without-refresh", ["--cinit=ConstInitNoRefresh", "--init=IndInit", "--inv=IndInv", "--length=1"], False)]
+        for name, args, want_ok in steps:
+            okk, err, out = vlib.apalache("stack", "ConnDeadlineInd", args, timeout=600)
+            if (want_ok and not okk) or (not want_ok and not err):
+                raise vlib.Inconclusive("Apalache ConnDeadlineInd %s: unexpected outcome\n%s" % (name, out[-1500:]))
+            runs.append({"apalache": "ConnDeadlineInd " + name, "outcome": "NoError" if okk else "counterexample (expected)"})
     dp = os.path.join(OUT, "conndl-%d.ndjson" % os.getpid())
     r3 = tlc("stack", "ConnDeadlineVectors", "ConnDeadlineVectors.cfg", workers=1, timeout=300, printed_to=dp)
     if not r3.ok:
